@@ -67,7 +67,18 @@ def run_case(ctx, st, pt, p: Pep, fn, size):
     ctx.begin({'text': text, 'pep': rp.to_json(p), 'function': fn, 'size': size})
     st.case = {}
     try:
-        getattr(pt, fn)(text if ctx.rng.random() < 0.7 else pt.parse(text), size)
+        r = ctx.rng.random()
+        if r < 0.6:
+            arg = text
+        elif r < 0.8:
+            arg = pt.parse(text)
+        else:
+            # an equal annotation whose residue-modification dictionary is in descending key order (as reverse leaves it)
+            d = pt.parse(text).dict()
+            if d['internal_mods']:
+                d['internal_mods'] = dict(sorted(d['internal_mods'].items(), reverse=True))
+            arg = pt.create_annotation(**d)
+        getattr(pt, fn)(arg, size)
     except Exception:
         pass
     c, st.case = st.case, None
